@@ -295,9 +295,13 @@ func implOp(op *term, tpl **textwire.Template, cwd string) string {
 		sort.Strings(names)
 		var hs []string
 		for _, n := range names {
-			hs = append(hs, hxOut(n))
+			hs = append(hs, hx(n))
 		}
 		return "NEWOK " + strings.Join(hs, ",")
+	case "RESET":
+		textwire.VerifReset()
+		*tpl = nil
+		return "RESETOK"
 	case "REG":
 		fid, _ := strconv.Atoi(a[2].atom)
 		if err := register(a[0].atom, unhx(a[1].atom), fid); err != nil {
